@@ -205,7 +205,17 @@ func checkPull(w *World, p *PullReport) (bad []pullVerdict, scen []string) {
 		if existed && isPrefix(rem, pre) {
 			want = pre
 		} else if existed && !isPrefix(pre, rem) {
-			add("harness/identity-diverged", id) // cannot happen by construction
+			// diverged (the identity was edited on two replicas): the remote is refused, the local is untouched,
+			// and the merge goes on with the other identities
+			scen = append(scen, "id-diverged")
+			if strings.Join(post, ",") != strings.Join(pre, ",") {
+				add("diverged-identity-changed-the-local-one", fmt.Sprintf("identity %s\npre %v\nremote %v\npost %v", id, pre, rem, post))
+			}
+			if res, reported := idResults[id]; !reported {
+				add("no-report-for-remote-identity", id+" (diverged)")
+			} else if res.Status != entity.MergeStatusInvalid {
+				add("diverged-identity-not-reported-invalid", fmt.Sprintf("identity %s: status %v", id, res.Status))
+			}
 			continue
 		}
 		if strings.Join(post, ",") != strings.Join(want, ",") {
